@@ -33,7 +33,7 @@ def runTokens (cfg : Cfg) (fuel : Nat) (tokens : List Token) (world : World) (fi
     | .ok σ => ⟨.ok, σ.output, some σ⟩
     | .err e σ => ⟨.rtErr e, σ.output, some σ⟩
     | .terminate w σ => ⟨.terminate w, σ.output, some σ⟩
-    | .panic p σ => ⟨.panic p, σ.output, some σ⟩
+    | .panic p out => ⟨.panic p, out.reverse.flatten, none⟩
     | .fuel => ⟨.fuel, [], none⟩
 
 /-- behaviour depends on the source only through its token sequence -/
